@@ -379,6 +379,45 @@ def cardinal_set(ctx, crate, clause="vertex-set"):
         ctx.report(clause, fi + ":inverts-index", not bad, "from_index(index(d)) = d for the 4 directions" if not bad else "direction %s -> index %s -> %s" % bad[0], at=bf.span, kind="N")
 
 
+def cardinal_set_iterator(ctx, crate, clause="vertex-set"):
+    """N: iterating over a `CardinalSet` (what `vertices_map` does with its argument) yields exactly the
+    directions whose bit is set, each once, and then stops: for each of the 16 sets, the iterator state
+    returned by `into_iter` is driven through `next` (loops executed iteration by iteration on the
+    concrete state) until it answers `None`; the directions are read back through `Cardinal::index`."""
+    CS = "compass_point::CardinalSet"; CSI = "compass_point::CardinalSetIterator"
+    nx = "<%s as std::iter::Iterator>::next" % CSI; ii = "<%s as std::iter::IntoIterator>::into_iter" % CS
+    IDX = "compass_point::Cardinal::index"
+    if CSI not in crate.adts and crate.body(nx) is None: return
+    b = ctx.anchor(crate, nx, clause); bi = crate.body(ii); bx = crate.body(IDX)
+    if b is None: return
+    if bi is None or bx is None:
+        ctx.not_decided("CardinalSet iteration: no `into_iter` / `Cardinal::index` body to drive it with"); return
+    from sym import State, C
+    def index_of(v):
+        e = Engine(crate); st = State(); st.heap[('tmp', 'dir')] = v
+        arg = ('ref_t', ('tmp', 'dir')) if bx.local_ty(1)["k"] == "ref" else v
+        r = e.run_body(bx, [arg], st, fk=((IDX, -1),), stack=(IDX,))
+        return r.ret[2] if r.returns and r.ret[0] == 'c' else None
+    bad = []; n = 0
+    for B in range(16):
+        e = Engine(crate); r = e.run(ii, [('agg', 'adt:' + CS, 0, (C('u8', B),))]); ctx.functions |= e.visited_fns
+        if not r.returns or r.ret[0] != 'agg': bad.append((B, "into_iter does not fold")); continue
+        state = r.ret; got = []; done = False
+        for _ in range(6):
+            e = Engine(crate, unroll=16); st = State(); st.heap[('tmp', 'it')] = state
+            r = e.run_body(b, [('ref_t', ('tmp', 'it'))], st, fk=((nx, -1),), stack=(nx,)); ctx.functions |= e.visited_fns
+            if not r.returns or r.ret[0] != 'agg' or not str(r.ret[1]).endswith("Option"): bad.append((B, "next does not fold after %s" % got)); done = None; break
+            n += 1
+            if r.ret[2] == 0: done = True; break
+            got.append(index_of(r.ret[3][0])); state = r.state.heap.get(('tmp', 'it'))
+            if state is None: bad.append((B, "iterator state lost")); done = None; break
+        if done is None: continue
+        want = [i for i in range(4) if (B >> i) & 1]
+        if not done: bad.append((B, "still yielding after 6 calls: %s" % got))
+        elif sorted(x if x is not None else -1 for x in got) != want: bad.append((B, "yields directions of index %s, the set holds %s" % (got, want)))
+    ctx.report(clause, nx + ":yields-exactly-the-set", not bad and n >= 48, "16 sets driven from into_iter to None (%d calls of next)" % n if not bad else "byte %s: %s" % bad[0], at=b.span, kind="N")
+
+
 def grid_ranges(ctx, crate, clause="grid-points"):
     """N: `grid(hash, n)` walks offsets i/n, j/n for i, j = 0..=n: its two loops run over 0..n+1 (the
     abscissae then stay in [0, 1], the offsets `sph_coo` accepts); one more round gives points outside
